@@ -113,6 +113,9 @@ func (m *c07Mon) Step(w *sessmc.World, e *sessmc.Event, obs []sessmc.Obs) (rule,
 	j2 := logonInLogonState && in141 == "Y" && !weSent141Before
 	flagCond := cfg.Initiator && e.K == "connect" && hasResetFlag(cfg.BeginString) && anyResetOption(cfg) &&
 		((S0 == 1 && T0 == 1) || cfg.ResetOnLogon)
+	// the application may ask for the reset itself by flagging the outgoing Logon in its ToAdmin callback
+	appAsks := cfg.AppResetFlag && cfg.Initiator && e.K == "connect" && hasResetFlag(cfg.BeginString)
+	flagCond = flagCond || appAsks
 	j3 := our141 && (flagCond || (logonInLogonState && in141 == "Y"))
 	j4 := cfg.ResetOnLogout && isIn && inType == "5" && conn0
 	j5 := cfg.ResetOnDisconnect && connEnded
@@ -170,12 +173,12 @@ func (m *c07Mon) Step(w *sessmc.World, e *sessmc.Event, obs []sessmc.Obs) (rule,
 			return "C07/R5-target-after-echo", fmt.Sprintf("after the echo (Logon #1) the expected inbound number is %d", T1)
 		}
 	case e.K == "connect" && cfg.Initiator && sn.Connected:
-		wantReset := cfg.ResetOnLogon
+		wantReset := cfg.ResetOnLogon || appAsks
 		s, t := S0, T0
 		if wantReset {
 			s, t = 1, 1
 		}
-		wantFlag := hasResetFlag(cfg.BeginString) && anyResetOption(cfg) && s == 1 && t == 1
+		wantFlag := (hasResetFlag(cfg.BeginString) && anyResetOption(cfg) && s == 1 && t == 1) || appAsks
 		if ourLogon == nil {
 			return "C07/R2-no-logon-on-connect", "initiator connected but transmitted no Logon"
 		}
@@ -488,6 +491,13 @@ func runC07(c *core.Ctx) {
 		if c.Expired() {
 			break
 		}
+	}
+	// the application flags its Logon with ResetSeqNumFlag=Y in ToAdmin (initiator; counters left over from before)
+	for _, bs := range []string{"FIX.4.2", "FIX.4.4"} {
+		cfg := sessmc.Config{Initiator: true, BeginString: bs, AppResetFlag: true, InitS: 5, InitT: 7, InitMsgs: []string{"A", "D", "0", "D"}}
+		sp := variantDefs["C07/lifecycle"](cfg)
+		sp.depth = depth - 1
+		runSearch(c, sp)
 	}
 	// file store with restarts
 	dir, cleanup := core.Scratch("c07")
